@@ -681,10 +681,20 @@ func (x *Exec) execConvert(fr *Frame, n *Node, st *State, in *ssa.Convert) {
 			}
 		}
 		if from == SSlice || to == SSlice {
-			// string -> []byte and other conversions: unconstrained
+			// string -> []byte and other conversions: fresh contents of the same length
 			fr.vals[in] = x.fresh("conv", in.Type())
 			if to == SSlice {
 				n.assume(wfSlice(fr.vals[in].S))
+				if from == SStr {
+					n.assume(mkEq(app("s.len", fr.vals[in].S), app("u_slen", v.S)))
+					if sl, ok := types.Unalias(in.Type()).Underlying().(*types.Slice); ok {
+						// bytes of the slice are the bytes of the string
+						h := x.heapElem(sl.Elem())
+						es := x.ss.sortOf(sl.Elem())
+						at := x.elemAt(h, x.get(st, h).S, fr.vals[in].S, "j", es)
+						n.assume(fmt.Sprintf("(forall ((j Int)) (! (=> (and (<= 0 j) (< j (u_slen %s))) (= %s (u_sat %s j))) :pattern (%s)))", v.S, at, v.S, at))
+					}
+				}
 			}
 			return
 		}
